@@ -124,6 +124,15 @@ pub fn run(em: &mut Emitter, rng: &mut Rng, thorough: bool) {
                 if obs == w.as_slice() { Oracle::Pass } else { Oracle::Fail("absence-after-end-of-parent-touched-the-sibling".into()) }
             }, true);
         }
+        // at the top level only the end of the INPUT is the end of the values: an indefinite value whose
+        // end-of-contents is missing is not "absent", whichever optional read meets it
+        if ctx == Ctx::Indefinite && mode != 2 {
+            let cut = data[..data.len() - 2].to_vec();
+            for p in [Prog::Skip { variant: 0, fk: 0, fa: 0, fb: 0 }, Prog::Skip { variant: 2, fk: 0, fa: 0, fb: 0 }, Prog::Skip { variant: 3, fk: 0, fa: 0, fb: 0 },
+                      Prog::Take { opt: true, kind: 0, exp: None, body: Body::Generic }, Prog::Take { opt: true, kind: 2, exp: Some((0, 16)), body: Body::Generic }, Prog::CaptureAll] {
+                prog_case(em, 901, mode, &[p], &cut, |obs| match obs.first() { Some(1) => Oracle::Pass, Some(0) => Oracle::Fail("unterminated-value-reported-as-read-or-absent".into()), _ => Oracle::Fail("panic".into()) }, true);
+            }
+        }
         // typed optional reads (take_opt_bool, take_opt_u8 ... = take_opt_primitive_if + accessor)
         for (exp, ty) in [((0u8, 1u32), 10u8), ((0, 2), 5), ((0, 2), 2), ((0, 5), 11), ((0, 6), 12)] {
             let j = rng.below(ts.len() as u64 + 1) as usize;
